@@ -47,7 +47,7 @@ func hostileGenesis(r *rand.Rand, collide, ck int) *ct.GenesisState {
 	}
 	seenP := map[pairKey]bool{}
 	for i := r.Intn(40); i > 0; i-- {
-		k := pairKey{RemoteDomains[r.Intn(len(RemoteDomains))], string(Token(r.Intn(NTokens)))}
+		k := pairKey{Domains[r.Intn(len(Domains))], string(Token(r.Intn(NTokens)))}
 		if !seenP[k] {
 			seenP[k] = true
 			gs.TokenPairList = append(gs.TokenPairList, ct.TokenPair{RemoteDomain: k.Domain, RemoteToken: []byte(k.Token), LocalToken: []string{"uusdc", "uUSDC", "ueure"}[r.Intn(3)]})
@@ -509,11 +509,11 @@ func runC19(rc *RunCtx) {
 		for i := 0; i < steps; i++ {
 			switch r.Intn(11) {
 			case 0, 1:
-				d, t := RemoteDomains[r.Intn(len(RemoteDomains))], Token(r.Intn(NTokens))
+				d, t := Domains[r.Intn(len(Domains))], Token(r.Intn(NTokens))
 				_, ex := e.M.Pairs[pairKey{d, string(t)}]
 				op(&ct.MsgLinkTokenPair{From: e.M.TC, RemoteDomain: d, RemoteToken: t, LocalToken: []string{"uusdc", "UUSDC", "ueure"}[r.Intn(3)]}, map[bool]string{true: "pair-dup", false: "pair-add"}[ex])
 			case 2:
-				d, t := RemoteDomains[r.Intn(len(RemoteDomains))], Token(r.Intn(NTokens))
+				d, t := Domains[r.Intn(len(Domains))], Token(r.Intn(NTokens))
 				cur, ex := e.M.Pairs[pairKey{d, string(t)}]
 				if !ex {
 					cur = "uusdc"
@@ -538,7 +538,7 @@ func runC19(rc *RunCtx) {
 				op(&ct.MsgSetMaxBurnAmountPerMessage{From: e.M.TC, LocalToken: d, Amount: mkInt(big.NewInt(int64(r.Intn(100))))}, "limit-set")
 			case 9, 10:
 				nonce += uint64(r.Intn(3))
-				in := &InMsg{Version: 0, Src: RemoteDomains[r.Intn(3)], Dst: 4, Nonce: []uint64{nonce, HostileNonces[r.Intn(len(HostileNonces))]}[r.Intn(2)], Sender: Structured32(1), Recipient: Structured32(2), Caller: make([]byte, 32), Body: []byte("r")}
+				in := &InMsg{Version: 0, Src: Domains[r.Intn(len(Domains))], Dst: 4, Nonce: []uint64{nonce, HostileNonces[r.Intn(len(HostileNonces))]}[r.Intn(2)], Sender: Structured32(1), Recipient: Structured32(2), Caller: make([]byte, 32), Body: []byte("r")}
 				raw := in.Bytes()
 				ex := e.M.Used[nonceKey{in.Src, in.Nonce}]
 				op(&ct.MsgReceiveMessage{From: Acct(UserIx), Message: raw, Attestation: e.Attest(raw, 0)}, map[bool]string{true: "nonce-dup", false: "nonce-add"}[ex])
